@@ -9,15 +9,13 @@ import (
 // are avoided in 80% of that property's runs and allowed in 20% (which re-confirms the
 // finding); every other property's check always steers around them.
 var ownTriggers = map[string][]string{
-	"C01": {"len-merge-put", "enum-hash-collision"},
+	"C01": {"len-merge-split", "enum-hash-collision"},
 	"C02": {"fail-in-commit", "rollback-insert", "phantom-reserved"},
-	"C03": {"index-build-during-apply"},
 	"C04": {"union-after-clear", "agg-missing-value"},
 	"C05": {"len-merge-put"},
 	"C08": {"snapshot-reserved"},
 	"C11": {"put-delete", "merge-absent"},
 	"C12": {"dup-key-in-txn", "concurrent-key-insert"},
-	"C16": {"index-build-during-apply"},
 	"C17": {"ttl-change-during-pass"},
 	"C18": {"schema-change-beside-activity", "growth-beside-readers", "enum-write-beside-readers"},
 	"C19": {"double-delete"},
@@ -25,9 +23,9 @@ var ownTriggers = map[string][]string{
 
 // knownAvoid returns the generator/executor avoidance switches for a run.
 func knownAvoid(prop string, seed uint64, run int) avoid {
-	a := avoid{putThenDelete: true, failInCommit: true, mergeAfterReuse: true, lenMergeThenPut: true, dupKeyInTxn: true,
+	a := avoid{putThenDelete: true, failInCommit: true, mergeAfterReuse: true, lenMergeThenPut: true, lenMergeSplit: true, dupKeyInTxn: true,
 		aggStale: true, rollbackInsert: true, unionAfterClear: true, doubleDelete: true, phantomReserved: true,
-		snapshotReserved: true, concurrentKeyInsert: true, ttlDuringPass: true, schemaChange: true, blockGrowth: true, enumBesideReaders: true, indexDuringApply: true, enumCollision: true}
+		snapshotReserved: true, concurrentKeyInsert: true, ttlDuringPass: true, schemaChange: true, blockGrowth: true, enumBesideReaders: true, enumCollision: true}
 	r := NewRng(seed, uint64(run), 1234)
 	allow := func(name string) {
 		switch name {
@@ -39,6 +37,8 @@ func knownAvoid(prop string, seed uint64, run int) avoid {
 			a.mergeAfterReuse = false
 		case "len-merge-put":
 			a.lenMergeThenPut = false
+		case "len-merge-split":
+			a.lenMergeSplit = false
 		case "dup-key-in-txn":
 			a.dupKeyInTxn = false
 		case "agg-missing-value":
@@ -63,11 +63,15 @@ func knownAvoid(prop string, seed uint64, run int) avoid {
 			a.blockGrowth = false
 		case "enum-write-beside-readers":
 			a.enumBesideReaders = false
-		case "index-build-during-apply":
-			a.indexDuringApply = false
 		case "enum-hash-collision":
 			a.enumCollision = false
 		}
+	}
+	if prop == "C01" {
+		// C01 observes stored values only (no indexes, no stream): a store after a merge of the
+		// same row and column leaves the stored value correct unless the column's buffer ends in a
+		// later run of the same block (trigger len-merge-split), so the coarse situation is always on
+		a.lenMergeThenPut = false
 	}
 	for _, t := range ownTriggers[prop] {
 		if r.Chance(0.2) {
